@@ -20,6 +20,7 @@
 #endif
 #include "wapi.h"
 #include "allocfault.h"
+#include <errno.h>
 #include <new>
 #include <iostream>
 #include <mutex>
@@ -33,8 +34,15 @@ namespace wapi
 {
 // ------------------------------------------------------------------------------------------------
 // memory files (fopencookie)
+static void io_runaway(const char *which); // more stream callbacks than any terminating run can make
 struct MemFile
 {
+  uint64_t calls = 0;
+  void tick(const char *which)
+  {
+    if (++calls > 2000000 + 64 * (uint64_t)d.size())
+      io_runaway(which);
+  }
   bytes d;
   long pos = 0;
   bool closed = false;
@@ -42,15 +50,27 @@ struct MemFile
   uint64_t written_bytes = 0;
   bool logging = false;
   std::vector<WriteRec> log;
+  long fail_at = -1; // >= 0: every read at or beyond this offset fails with EIO (an unreadable stretch of the input)
+  bool fail_once = false; // the error is transient: only the first such read fails
 };
 static ssize_t mf_read(void *c, char *buf, size_t n)
 {
   allocfault::Exempt af_;
   MemFile *m = (MemFile *)c;
+  m->tick("read");
   m->reads++;
+  if (m->fail_at >= 0 && m->pos >= m->fail_at)
+  {
+    if (m->fail_once)
+      m->fail_at = -1;
+    errno = EIO;
+    return -1;
+  }
   if (m->pos >= (long)m->d.size())
     return 0;
   size_t k = std::min(n, m->d.size() - (size_t)m->pos);
+  if (m->fail_at >= 0 && m->pos + (long)k > m->fail_at)
+    k = (size_t)(m->fail_at - m->pos); // deliver what lies before the bad stretch; the next read fails
   memcpy(buf, m->d.data() + m->pos, k);
   m->pos += k;
   return k;
@@ -59,6 +79,7 @@ static ssize_t mf_write(void *c, const char *buf, size_t n)
 {
   allocfault::Exempt af_;
   MemFile *m = (MemFile *)c;
+  m->tick("write");
   m->writes++;
   m->written_bytes += n;
   if (n > (1u << 28))
@@ -82,6 +103,7 @@ static int mf_seek(void *c, off64_t *off, int wh)
 {
   allocfault::Exempt af_;
   MemFile *m = (MemFile *)c;
+  m->tick("seek");
   long b = wh == SEEK_SET ? 0 : wh == SEEK_CUR ? m->pos : (long)m->d.size();
   long np = b + *off;
   if (np < 0)
@@ -377,6 +399,21 @@ static void fatal_handler(const char *what)
 }
 #endif
 
+// a loop that polls a stream for ever never reaches a schedule point: the scheduler's step bound cannot fire, so
+// the memory files count their callbacks and report the same way (deterministically, no wall clock involved)
+static void io_runaway(const char *which)
+{
+#ifdef VS_SHIM
+  if (vsched::active())
+  {
+    vsched::current().blocked_desc = std::string("endless I/O loop: more than 2000000 + 64*size ") + which + " calls on one stream;";
+    fatal_handler("steplimit");
+  }
+#endif
+  fprintf(stderr, "endless I/O loop: runaway %s calls on one stream\n", which);
+  _exit(43);
+}
+
 template <class F>
 static void with_sched(const PipeCfg &pc, size_t nblocks, OpOut &out, F f)
 {
@@ -458,6 +495,8 @@ OpOut encrypt(const bytes &plain, const bytes &key, const bytes &seed, int cmode
   set_chunk(pc);
   MemFile in, out;
   in.d = plain;
+  in.fail_at = pc.in_fail_at;
+  in.fail_once = pc.in_fail_once;
   out.logging = pc.want_log;
   FILE *fi = mf_open(&in, "rb");
   FILE *fo = mf_open(&out, "wb+", pc.outbuf);
@@ -480,6 +519,8 @@ OpOut decrypt(const bytes &file, const bytes &key, const PipeCfg &pc)
   set_chunk(pc);
   MemFile in, out;
   in.d = file;
+  in.fail_at = pc.in_fail_at;
+  in.fail_once = pc.in_fail_once;
   out.logging = pc.want_log;
   FILE *fi = mf_open(&in, "rb");
   FILE *fo = mf_open(&out, "wb+", pc.outbuf);
@@ -500,6 +541,8 @@ OpOut verify(const bytes &file, const bytes &key, const PipeCfg &pc, bool with_o
   set_chunk(pc);
   MemFile in, out;
   in.d = file;
+  in.fail_at = pc.in_fail_at;
+  in.fail_once = pc.in_fail_once;
   FILE *fi = mf_open(&in, "rb");
   FILE *fo = with_out ? mf_open(&out, "wb+", pc.outbuf) : NULL;
   bytes k = key;
